@@ -120,12 +120,12 @@ struct GridChain {
       if (with_tp && t0 > 0) {
         bool consumed = tp == t0 - 1;
         if (tp != t0 && !consumed) { violation(key("token", op.lim_name, ".count"), std::to_string(t0) + " -> " + std::to_string(tp)); return false; }
-        if (op.flavour != 2 || cv.empty()) { if (consumed != changed) { violation(key("token", op.lim_name, consumed ? ".consumed_but_precise" : ".not_consumed_but_lossy"), "x=" + show(LX) + " y=" + show(LY)); return false; } }
+        if (op.flavour != 2 || cv.empty()) { if (consumed != changed) { violation(key("token", op.lim_name, std::string(consumed ? ".consumed_but_precise" : ".not_consumed_but_lossy") + (cv.empty() ? ":empty-limiting-system" : "")), "x=" + show(LX) + " y=" + show(LY)); return false; } }
         if (!ref::same(LL, LX)) { violation(key("token", op.lim_name, consumed ? ".receiver_changed" : ".result_differs"), "result " + show(LL) + " x=" + show(LX)); return false; }
       } else {
         bool below_plain = ref::included(LL, LZ);
         if (!below_plain && op.flavour == 2) for (size_t i = 0; i < flavours.size(); ++i) if (ref::included(LL, flavours[i])) below_plain = true;
-        if (!below_plain) { violation(key("limited", op.lim_name, ".above_widening"), "result " + show(LL) + " is not contained in the plain widening " + show(LZ) + "; x=" + show(LX) + " y=" + show(LY)); return false; }
+        if (!below_plain) { violation(key("limited", op.lim_name, std::string(".above_widening") + (cv.empty() ? ":empty-limiting-system" : "")), "result " + show(LL) + " is not contained in the plain widening " + show(LZ) + "; x=" + show(LX) + " y=" + show(LY)); return false; }
         for (size_t i = 0; i < cv.size(); ++i) {
           Cg c = conv_cg(cv[i], n);
           if (!lat_satisfies(LX, c)) { hx::count("limiting.unsatisfied"); continue; }
